@@ -9,11 +9,13 @@
 unsigned g_ev_calls;
 int g_ev_ret;
 struct emu *g_ev_arg;
+int w_evret;                 /* witness: result of the handler, for the native replay */
 int stub_event(struct emu *emu)
 {
 	g_ev_calls++;
 	g_ev_arg = emu;
 	g_ev_ret = nondet_int();
+	w_evret = g_ev_ret;
 	return g_ev_ret;
 }
 
@@ -32,7 +34,7 @@ __CPROVER_requires(!REG(model, index) || model->spec[index]->event == NULL || mo
 __CPROVER_requires(DIAG_PRE && g_ev_calls < 1000000u)
 __CPROVER_requires(WBIND(model_event, w_index == index && w_registered == REG(model, index) && w_enabled == ENA(model, index) &&
 	(!REG(model, index) || w_has_event == (model->spec[index]->event != NULL))))
-__CPROVER_assigns(DIAG_FRAME, g_ev_calls, g_ev_ret, g_ev_arg)
+__CPROVER_assigns(DIAG_FRAME, g_ev_calls, g_ev_ret, g_ev_arg, w_evret)
 __CPROVER_ensures(__CPROVER_return_value == 0 || __CPROVER_return_value == -1)
 /* not registered, or not enabled: refused with a diagnostic, handler not called */
 __CPROVER_ensures((REG(model, index) && ENA(model, index)) ||
